@@ -400,6 +400,8 @@ pub fn payload_str(p: &(dyn std::any::Any + Send)) -> String {
         s.to_string()
     } else if let Some(s) = p.downcast_ref::<String>() {
         s.clone()
+    } else if let Some(t) = p.downcast_ref::<crate::hsys::TypedPanic>() {
+        t.0.clone()
     } else {
         "<non-string panic payload>".to_string()
     }
